@@ -342,6 +342,30 @@ def rand_int_kv(rng, pmax=3, nintmax=3):
     return U + [F(x)] * (p + 1)
 
 
+def same_breakpoint_pair(rng, pmin=1, pmax=3):
+    """two knot vectors of equal degree, equal distinct knots and equal length (equal npts) whose interior multiplicities are
+    distributed differently, e.g. (0,0,0,1/3,1/3,2/3,1,1,1) and (0,0,0,1/3,2/3,2/3,1,1,1); None when the draw degenerates"""
+    a, b = rand_interval(rng)
+    p = rng.randint(pmin, pmax)
+    ks = [a + (b - a) * x for x in sorted(rng.sample(GRID, rng.randint(2, 3)))]
+    total = rng.randint(len(ks) + 1, len(ks) * (p + 1) - 1)
+
+    def spread():
+        m = [1] * len(ks)
+        for _ in range(total - len(ks)):
+            cand = [j for j in range(len(ks)) if m[j] < p + 1]
+            if not cand:
+                break
+            m[rng.choice(cand)] += 1
+        return m
+    mu, mv = spread(), spread()
+    if mu == mv or sum(mu) != sum(mv):
+        return None
+    U = [a] * (p + 1) + [k for k, m in zip(ks, mu) for _ in range(m)] + [b] * (p + 1)
+    V = [a] * (p + 1) + [k for k, m in zip(ks, mv) for _ in range(m)] + [b] * (p + 1)
+    return U, V
+
+
 DYADIC = [F(k, 8) for k in range(1, 8)]
 
 
